@@ -442,7 +442,7 @@ func (envs *Manager) CreateEnvironment(workflowPath string, userVars map[string]
 						log.WithField("partition", env.Id().String()).
 							WithField("state", envState).
 							Debug("could not transition failed auto-transitioning environment to ERROR, cleanup in progress")
-						env.setState("ERROR")
+						env.ForceError()
 					}
 
 					envTasks := env.Workflow().GetTasks()
@@ -998,7 +998,7 @@ func (envs *Manager) handleIntegratedServiceEvent(evt event.IntegratedServiceEve
 									WithError(err).
 									Error("environment GO_ERROR transition failed after ODC_PARTITION_STATE_CHANGE ERROR event")
 							}
-							env.setState("ERROR")
+							env.ForceError()
 						}
 					}()
 				}
@@ -1319,7 +1319,7 @@ func (envs *Manager) CreateAutoEnvironment(workflowPath string, userVars map[str
 				WithField("state", envState).
 				Debug("could not transition failed auto-transitioning environment to ERROR, cleanup in progress")
 			env.sendEnvironmentEvent(&event.EnvironmentEvent{Message: "transition ERROR failed, forcing", EnvironmentID: env.Id().String(), Error: err})
-			env.setState("ERROR")
+			env.ForceError()
 		}
 
 		envTasks := env.Workflow().GetTasks()
